@@ -565,6 +565,16 @@ def replay_number_comparisons(problems, prop="C04"):
             c = (fa > vf) - (fa < vf)
             cases.append(("A is %s + 0, B is %s, rels(A, B, Rs), show(Rs)" % (ta, tf), relset(c)))
             cases.append(("A is %s + 0, B is %s, rels(B, A, Rs), show(Rs)" % (ta, tf), relset(-c)))
+    # rationals whose denominator / numerator is wider than a double's mantissa: the comparison with
+    # the double float(R) (the correctly rounded conversion) must say equal, in both operand orders
+    wide = ["((2^52 + 5) + ((2^61 - 1) // 4) rdiv (2^61 - 1))", "((2^61 - 1) rdiv (2^62 + 3))",
+            "((2^120 + 12345) rdiv (2^59 + 1))", "(-(2^52 + 5) - ((2^61 - 1) // 4) rdiv (2^61 - 1))",
+            "((3^50) rdiv (7^30))"]
+    for w in wide:
+        cases.append(("R is %s, F is float(R), rels(R, F, Rs), show(Rs)" % w, relset(0)))
+        cases.append(("R is %s, F is float(R), rels(F, R, Rs), show(Rs)" % w, relset(0)))
+        cases.append(("R is %s, F is float(R), G is F * 2, rels(R, G, R1), rels(G, R, R2), show(R1-R2)" % w, None))
+    cases = [c for c in cases if c[1] is not None]
     # Number vs usize: functor/3 arity checks with integers held in bignum cells
     cases.append(("N is 2^60-2^60+2, functor(T, foo, N), show(T)", "foo(_A,_B)"))
     cases[-1] = ("N is 2^60-2^60+2, functor(T, foo, N), functor(T, F, A), show(F/A)", "foo/2")
